@@ -32,39 +32,69 @@ Definition get_schema_namespace (t : str) : str :=
 Definition has_hash_mid (s : str) : Prop :=
   exists a b, s = a ++ ch_slash :: ch_hash :: ch_slash :: b.
 
+(* Which of the two repairs of hed_schema.py the model follows (both true = the code as it is now):
+   fix_index  the walk runs over the text as written, every lookup folds its own key, so that the
+              index used to cut the remainder off the written text refers to that text
+              (before: the walk ran over the folded text, whose length can differ);
+   fix_hash   the walk never steps onto a '#' placeholder entry (before: it did, and the first
+              "/#" of "X/#/#/more" was dropped from the remainder). *)
+Record fixes := mkFixes { fix_index : bool; fix_hash : bool }.
+Definition repaired : fixes := mkFixes true true.
+Definition unrepaired : fixes := mkFixes false false.
+
 Section Fold.
-  Variable foldc : N -> N.
+  Variable foldc : N -> str.
   Notation fold := (fold foldc).
   Notation get_entry := (get_entry foldc).
+  Variable fx : fixes.
 
   (* HedTagEntry.finalize_entry: takes_value_child_entry = schema._get_tag_entry(self.name + "/#") *)
   Definition takes_value_child (T : table) (e : entry) : option entry :=
     get_entry T (e_name e ++ s_slash_hash).
 
-  (* the while loop of _find_tag_subfunction over the successive parent_name values;
-     cur = (current_entry, current_slash_index); result flag: stopped on an unknown parent_name *)
-  Fixpoint walk (T : table) (ps : list str) (cur : option (entry * nat)) : option (entry * nat) * bool :=
+  (* self._get_tag_entry(parent_name) inside the walk; with fix_hash a placeholder entry is not a hit *)
+  Definition walk_entry (T : table) (key : str) : option entry :=
+    match lookup key (long_form_tags T) with
+    | Some e => if fix_hash fx && ends_slash_hash (e_name e) then None else Some e
+    | None => None
+    end.
+
+  (* the successive (folded parent_name, next_index) of the loop of _find_tag_subfunction *)
+  Definition walk_keys (clean : str) : list (str * nat) :=
+    if fix_index fx
+    then map (fun q => (fold q, length q)) (slash_prefixes clean)
+    else map (fun q => (q, length q)) (slash_prefixes (fold clean)).
+
+  (* the while loop of _find_tag_subfunction; cur = (current_entry, current_slash_index);
+     result flag: stopped on an unknown parent_name *)
+  Fixpoint walk (T : table) (ps : list (str * nat)) (cur : option (entry * nat)) : option (entry * nat) * bool :=
     match ps with
     | [] => (cur, false)
-    | q :: rest =>
-        match lookup q (long_form_tags T) with     (* working_tag is already folded *)
+    | (key, idx) :: rest =>
+        match walk_entry T key with
         | None => (cur, true)
-        | Some e => walk T rest (Some (e, length q))
+        | Some e => walk T rest (Some (e, idx))
         end
     end.
 
+  (* the folded terms after current_slash_index that _validate_remaining_terms looks up *)
+  Definition remaining_terms (clean : str) (idx : nat) : list str :=
+    if fix_index fx
+    then map fold (split_slash (skipn (idx + 1) clean))
+    else split_slash (skipn (idx + 1) (fold clean)).
+
   (* HedSchema._validate_remaining_terms: false = raises INVALID_PARENT_NODE *)
-  Definition validate_remaining_terms (T : table) (working : str) (idx : nat) : bool :=
+  Definition validate_remaining_terms (T : table) (clean : str) (idx : nat) : bool :=
     forallb (fun name => match lookup name (long_form_tags T) with Some _ => false | None => true end)
-            (split_slash (skipn (idx + 1) working)).
+            (remaining_terms clean idx).
 
   (* HedSchema._find_tag_subfunction *)
-  Definition find_tag_subfunction (T : table) (working : str) : tagerr + (entry * nat) :=
-    match walk T (slash_prefixes working) None with
+  Definition find_tag_subfunction (T : table) (clean : str) : tagerr + (entry * nat) :=
+    match walk T (walk_keys clean) None with
     | (None, _) => inl NoValidTagFound
     | (Some (e, idx), missed) =>
         if missed && negb (match takes_value_child T e with Some _ => true | None => false end)
-                  && negb (validate_remaining_terms T working idx)
+                  && negb (validate_remaining_terms T clean idx)
         then inl InvalidParentNode
         else inr (e, idx)
     end.
@@ -76,7 +106,7 @@ Section Fold.
     match lookup working (long_form_tags T) with
     | Some e => Found e (if ends_slash_hash working then skipn (length working - 2) working else [])
     | None =>
-        match find_tag_subfunction T working with
+        match find_tag_subfunction T clean with
         | inl err => NotFound err
         | inr (e, idx) =>
             let remainder := skipn idx clean in
@@ -136,7 +166,7 @@ Section Fold.
   (* no term of r is itself a tag of the schema (checked only for nodes without a '#' child) *)
   Definition ext_terms_free (T : table) (r : str) : bool :=
     forallb (fun name => match lookup name (long_form_tags T) with Some _ => false | None => true end)
-            (split_slash (fold r)).
+            (map fold (split_slash r)).
 
   (* everything C03 observes of one tag text, from the registration-ordered name list *)
   Definition resolve (S : list str) (schema_ns text : str) : res hedtag :=
